@@ -6,6 +6,7 @@ mod c14;
 mod c15;
 mod c20;
 mod container;
+mod convert;
 mod indep;
 mod mem;
 mod util;
@@ -28,6 +29,7 @@ fn main() {
 		("stress", "C13") => c13::stress(&args[3], &args[4], seed, thorough),
 		("replay", "C14") => c14::replay(&args[3], &args[4]),
 		("record", "C14") => c14::record(&args[3], seed, thorough),
+		("replay", "CONVERT") => convert::replay(&args[3], &args[4], &args[5]),
 		("replay", "CONTAINER") => container::replay(&args[3], &args[4], &args[5], &args[6]),
 		("record", "CONTAINER") => container::record(&args[3], &args[4], seed, thorough, &args[5]),
 		("replay", "C15") => c15::replay(&args[3], &args[4]),
